@@ -11,7 +11,7 @@ import random
 import z3
 
 from pysx import engine, loader, calc
-from pysx.harness import CheckBase, main, run_pinned, concrete, test_rows
+from pysx.harness import CheckBase, main, run_pinned, concrete, test_rows, NotPinned
 from pysx.values import SymInt
 from checks.c02 import zR, R_py
 
@@ -128,7 +128,10 @@ class Check(CheckBase):
                 calc.begin_path()
                 ec = calc.load_ebb_calc()
                 return concrete(ec.max_rate_t3(T, sym(rate), sym(accel), sym(jerk)))
-            got = run_pinned(h)
+            try:
+                got = run_pinned(h)
+            except NotPinned:
+                continue          # result depends on a rounding direction the model leaves open
             assert got == exp, "translator validation failed on max_rate_t3%r: %r vs %r" % ((T, rate, accel, jerk), got, exp)
             n += 1
         return n
